@@ -50,34 +50,29 @@ func run(in msgh.Input) vh.Result {
 
 func classify(in msgh.Input, steps []msgh.Step) string {
 	f := map[string]bool{}
-	nerr := 0
 	for i, op := range in.Ops {
 		switch op.K {
-		case "trunc", "ctrunc", "trim", "reopen", "release", "apply", "capp":
-			f[op.K] = true
+		case "trunc", "ctrunc":
+			f["trunc"] = true
+		case "trim":
+			f["trim"] = true
+		case "reopen":
+			f["reopen"] = true
 		}
-		if steps[i].Out.Err != 0 {
-			nerr++
-			switch steps[i].Out.Err {
-			case 2:
-				f["conflict"] = true
-			case 4:
-				f["corrupt"] = true
-			case 1:
-				f["invalid"] = true
-			}
-		}
-		if steps[i].Out.Kind == "XTrim" && steps[i].Out.Flag {
-			f["trimmore"] = true
+		switch steps[i].Out.Err {
+		case 2:
+			f["conflict"] = true
+		case 4:
+			f["corrupt"] = true
 		}
 	}
 	var parts []string
-	for _, k := range []string{"trunc", "ctrunc", "trim", "trimmore", "reopen", "release", "apply", "capp", "conflict", "corrupt", "invalid"} {
+	for _, k := range []string{"trunc", "trim", "reopen", "conflict", "corrupt"} {
 		if f[k] {
 			parts = append(parts, k)
 		}
 	}
-	return fmt.Sprintf("ops=%d0s,err=%d0%%:%s", len(in.Ops)/10, nerr*10/max(1, len(in.Ops)), strings.Join(parts, "+"))
+	return fmt.Sprintf("ops<%d0:%s", len(in.Ops)/10+1, strings.Join(parts, "+"))
 }
 
 func emitConsts(w io.Writer) { msgh.EmitConsts(w, "C07") }
